@@ -278,14 +278,16 @@ bool FilePersister::put(const unsigned seqnum, const f8String& what)
 		return false;
 	}
 	IPrec iprec(seqnum, offset, static_cast<unsigned>(what.size()));
-	if (write (_iod, static_cast<void *>(&iprec), sizeof(IPrec)) != sizeof(IPrec))
-	{
-		glout_error << "Error: could not write index record for seqnum " << seqnum << " to: " << _dbIname;
-		return false;
-	}
+	// the data first: an index record must never refer to bytes that are not there (after a crash in between, the next
+	// record would be appended at that very offset and be returned under this sequence number)
 	if (write (_fod, what.data(), static_cast<unsigned>(what.size())) != static_cast<ssize_t>(what.size()))
 	{
 		glout_error << "Error: could not write record for seqnum " << seqnum << " to: " << _dbFname;
+		return false;
+	}
+	if (write (_iod, static_cast<void *>(&iprec), sizeof(IPrec)) != sizeof(IPrec))
+	{
+		glout_error << "Error: could not write index record for seqnum " << seqnum << " to: " << _dbIname;
 		return false;
 	}
 
